@@ -78,6 +78,7 @@ import (
 	"github.com/bfenetworks/bfe/bfe_modules/mod_rewrite"
 	"github.com/bfenetworks/bfe/bfe_route"
 	"github.com/bfenetworks/bfe/bfe_tls"
+	"github.com/bfenetworks/bfe/bfe_util"
 	"github.com/bfenetworks/bfe/verifkit/vk"
 	"github.com/bfenetworks/bfe/verifkit/vsched"
 )
@@ -360,6 +361,19 @@ func (e *c15env) forward(req *bfe_basic.Request) int {
 	return bfe_module.BfeHandlerGoOn
 }
 
+// readResponse runs right before sendResponse. It gives the proxy an empty buffer pool, so that a
+// request never copies its response through a buffer another request has just returned: whether
+// sync.Pool hands a buffer on is random in a race build (it drops one Put in four on purpose), and
+// when it does, the pool's internal synchronisation orders the two requests and hides what they
+// do to shared state afterwards. sync.Pool never promises reuse, so "no reuse" is a legal
+// environment, and the only deterministic one.
+//
+//go:norace
+func (e *c15env) readResponse(req *bfe_basic.Request, res *bfe_http.Response) int {
+	e.srv.ReverseProxy.bufferPool = bfe_util.NewFixedPool(32 * 1024)
+	return bfe_module.BfeHandlerGoOn
+}
+
 // ---- environment -------------------------------------------------------------------------------
 
 const c15blockRules = `{"Version": "M%[1]d", "Config": {
@@ -462,6 +476,7 @@ func c15newEnv(root string, withMods bool) *c15env {
 	}
 	must(srv.CallBacks.AddFilter(bfe_module.HandleAfterLocation, e.afterLocation))
 	must(srv.CallBacks.AddFilter(bfe_module.HandleForward, e.forward))
+	must(srv.CallBacks.AddFilter(bfe_module.HandleReadResponse, e.readResponse))
 	for _, name := range names {
 		h, ok := (*whs.Handlers[web_monitor.WebHandleReload])[name]
 		if !ok {
